@@ -47,11 +47,11 @@ def project(case, outs):
         if r[0] == 8:
             last[(r[2], r[3])] = i
     keep = set(last.values())
-    res = [r for i, r in enumerate(outs) if (r[0] in (2, 4, 11)) or (r[0] == 3 and r[4] in (20, 21)) or (r[0] == 8 and i in keep)]
+    res = [r for i, r in enumerate(outs) if (r[0] in (2, 4, 11)) or (r[0] == 3 and r[4] in (11, 20, 21)) or (r[0] == 8 and i in keep)]
     res.sort(key=lambda r: 0)  # stable
     probes = [r for r in res if r[0] == 8]
     others = [r for r in res if r[0] != 8]
-    end = [r for r in outs if r[0] == 10]
+    end = [r for r in outs if r[0] in (10, 16)]
     return others + probes + end
 
 
